@@ -13,9 +13,8 @@ namespace Dicom.Ref
 theorem implicitVr_eq (dict : Tag → Option VR) (t : Tag) : implicitVr dict t = resolveImplicitVr dict t := by
   unfold implicitVr resolveImplicitVr
   by_cases h1 : t = Tag.pixelData
-  · have : t = ⟨0x7FE0, 0x0010⟩ := h1
-    simp [h1, this]
-    left; exact this
+  · subst h1
+    simp [Tag.pixelData]
   · have h1' : ¬ t = ⟨0x7FE0, 0x0010⟩ := h1
     by_cases h2 : t.group / 256 = 0x60 ∧ t.elem = 0x3000
     · simp [h1, h2]
@@ -52,7 +51,7 @@ theorem decodeHeader_delim (ts : Syntax) (dict : Tag → Option VR) (e : Nat) (h
   · have : ts = .implicitLE := by cases ts <;> simp_all [Syntax.explicit]
     subst this
     refine ⟨implicitVr dict ⟨0xFFFE, e⟩, ?_, by simp, by simp⟩
-    have hv : (Tag.mk 0xFFFE e).Valid := ⟨by decide, he⟩
+    have hv : (Tag.mk 0xFFFE e).Valid := ⟨(by decide : 0xFFFE < 65536), he⟩
     have := decodeTag_encodeTag false ⟨0xFFFE, e⟩ hv (le32 0 ++ rest)
     simp [decodeHeader, Syntax.bigEndian, tagBytes_eq, enc32, List.append_assoc, this,
       rdLe32_le32 0 (by decide), implicitVr_eq]
@@ -121,8 +120,9 @@ theorem rdTags_flatMap (be : Bool) (rest : Bytes) :
   | a :: r, hp => by
     have ih := rdTags_flatMap be rest r (fun b hb => hp b (by simp [hb]))
     have := decodeTag_encodeTag be a (hp a (by simp)) (r.flatMap (tagBytes be) ++ rest)
-    simp [rdTags, List.flatMap_cons, List.append_assoc, tagBytes_eq, this]
-    simpa [tagBytes_eq] using ih
+    simp only [List.length_cons, rdTags, List.flatMap_cons, List.append_assoc]
+    rw [tagBytes_eq be a, this]
+    simp only [ih]
 
 theorem fromTwos16 (v : Int) (h1 : -32768 ≤ v) (h2 : v < 32768) : fromTwos 16 (unsigned 65536 v) = v := by
   unfold fromTwos unsigned
@@ -153,5 +153,75 @@ theorem unsigned_lt32 (v : Int) (h1 : -2147483648 ≤ v) (h2 : v < 2147483648) :
 theorem unsigned_lt64 (v : Int) (h1 : -9223372036854775808 ≤ v) (h2 : v < 9223372036854775808) :
     unsigned 18446744073709551616 v < 18446744073709551616 := by
   unfold unsigned; split <;> omega
+
+/-! ### `read_value_preserved` on the value field of a canonical element -/
+
+theorem take_append (ts : Syntax) (dict : Tag → Option VR) (a rest : Bytes) (pos n : Nat) (hn : n = a.length) :
+    (Dec.mk ts dict (a ++ rest) pos).take n = .ok (a, ⟨ts, dict, rest, pos⟩) := by
+  subst hn
+  simp [Dec.take, takeN_append]
+
+theorem takeN_zero (r : Bytes) : takeN 0 r = some ([], r) := by simp [takeN]
+
+theorem readNums_ok {α : Type} (ts : Syntax) (dict : Tag → Option VR) (pos : Nat) (rest : Bytes) (l : List α)
+    (enc : α → Bytes) (val : α → Nat) (P : α → Prop) (rd : Bytes → Option (Nat × Bytes)) (k shift : Nat)
+    (hk : 2 ^ shift = k) (hk0 : 0 < k)
+    (hrd : ∀ a r, P a → rd (enc a ++ r) = some (val a, r)) (hp : ∀ a ∈ l, P a)
+    (mk : List Nat → PValue) (len : Nat) (hlen : len = l.length * k) :
+    (Dec.mk ts dict (l.flatMap enc ++ rest) pos).readNums len shift rd mk =
+      .ok (mk (l.map val), ⟨ts, dict, rest, pos + len⟩) := by
+  unfold Dec.readNums
+  have h1 : len / 2 ^ shift = l.length := by rw [hk, hlen]; exact Nat.mul_div_cancel _ hk0
+  have h2 : len % 2 ^ shift = 0 := by rw [hk, hlen]; exact Nat.mul_mod_left _ _
+  simp only [h1, h2, rdMany_flatMap rd enc val P hrd rest l hp, takeN_zero]
+
+theorem len_ne_undef {len : Nat} (h : len < 4294967295) : len ≠ undefinedLen := by
+  simp only [undefinedLen]; omega
+
+theorem read_strs (ts : Syntax) (dict : Tag → Option VR) (t : Tag) (vr : VR) (len : Nat) (l : List Bytes)
+    (rest : Bytes) (pos : Nat) (hvr : valueFits vr (.strs l) = true) (hlen : len = (joinBackslash l).length)
+    (hz : len ≠ 0) (hlt : len < 4294967295) :
+    (Dec.mk ts dict (joinBackslash l ++ rest) pos).readValuePreserved ⟨t, vr, len⟩ =
+      .ok (.strs l, ⟨ts, dict, rest, pos + len⟩) := by
+  have hc := fits_strs hvr
+  have hne : l ≠ [] := by
+    intro h; subst h; simp [joinBackslash] at hlen; exact hz hlen
+  have hund := len_ne_undef hlt
+  have htake := take_append ts dict (joinBackslash l) rest pos len hlen
+  cases vr <;> simp [valueFits] at hvr <;>
+    simp [Dec.readValuePreserved, hz, hund, htake, split_join l hne hc, textDecodeAll_id l hc]
+
+theorem read_str (ts : Syntax) (dict : Tag → Option VR) (t : Tag) (vr : VR) (len : Nat) (s : Bytes)
+    (rest : Bytes) (pos : Nat) (hvr : valueFits vr (.str s) = true) (hlen : len = s.length)
+    (hz : len ≠ 0) (hlt : len < 4294967295) :
+    (Dec.mk ts dict (s ++ rest) pos).readValuePreserved ⟨t, vr, len⟩ =
+      .ok (.str s, ⟨ts, dict, rest, pos + len⟩) := by
+  have hc := fits_str hvr
+  have hund := len_ne_undef hlt
+  have htake := take_append ts dict s rest pos len hlen
+  cases vr <;> simp [valueFits] at hvr <;>
+    simp [Dec.readValuePreserved, hz, hund, htake, textDecode_plain s hc]
+
+theorem read_u8 (ts : Syntax) (dict : Tag → Option VR) (t : Tag) (vr : VR) (len : Nat) (l : List Nat)
+    (rest : Bytes) (pos : Nat) (hvr : valueFits vr (.u8 l) = true) (hlen : len = l.length)
+    (hz : len ≠ 0) (hlt : len < 4294967295) :
+    (Dec.mk ts dict (l ++ rest) pos).readValuePreserved ⟨t, vr, len⟩ =
+      .ok (.u8 l, ⟨ts, dict, rest, pos + len⟩) := by
+  have hund := len_ne_undef hlt
+  have htake := take_append ts dict l rest pos len hlen
+  cases vr <;> simp [valueFits] at hvr <;>
+    simp [Dec.readValuePreserved, hz, hund, htake]
+
+theorem read_tags (ts : Syntax) (dict : Tag → Option VR) (t : Tag) (vr : VR) (len : Nat) (l : List Tag)
+    (rest : Bytes) (pos : Nat) (hvr : valueFits vr (.tags l) = true) (hlen : len = l.length * 4)
+    (hz : len ≠ 0) (hlt : len < 4294967295) :
+    (Dec.mk ts dict (l.flatMap (tagBytes ts.bigEndian) ++ rest) pos).readValuePreserved ⟨t, vr, len⟩ =
+      .ok (.tags l, ⟨ts, dict, rest, pos + len⟩) := by
+  have hund := len_ne_undef hlt
+  have h1 : len / 4 = l.length := by rw [hlen]; exact Nat.mul_div_cancel _ (by decide)
+  have h2 : len % 4 = 0 := by rw [hlen]; exact Nat.mul_mod_left _ _
+  cases vr <;> simp [valueFits] at hvr
+  have hv : ∀ t ∈ l, t.Valid := fun t ht => ⟨(hvr t ht).1, (hvr t ht).2⟩
+  simp [Dec.readValuePreserved, hz, hund, h1, h2, rdTags_flatMap ts.bigEndian rest l hv, takeN_zero]
 
 end Dicom.Ref
